@@ -198,9 +198,25 @@ def run(ctx):
                 k2.fail('%s:begin_keywords:push-count' % g.crate, where_bk, 'begin_keywords selects a version by value but pushes it %d times' % verdict['pushes'])
     if ik:
         ms = [n for n in sx.walk(ik.item['body']) if n.get('k') == 'match']
-        k2.exactly('is_keyword_match', len(ms), 1)
+        scrut_ok = None
+        if not ms:
+            # the version -> table selection may live in a private helper that is_keyword applies to current_version()
+            for n in sx.walk(ik.item['body']):
+                if sx.is_call(n) and n['f']['p'] in g.fns and g.fns[n['f']['p']].kind == 'other' and len(n['args']) == 1:
+                    h_ = g.fns[n['f']['p']]
+                    hm = [z for z in sx.walk(h_.item['body']) if z.get('k') == 'match']
+                    hp = [sx.pat_idents(q['pat'])[0] for q in h_.item['sig']['params'] if q.get('k') == 'typed']
+                    if len(hm) == 1 and len(hp) == 1 and sx.is_path(hm[0]['e'], hp[0]):
+                        ms = hm
+                        scrut_ok = sx.is_call(n['args'][0], 'current_version')
+        if len(ms) != 1:
+            k2.undecided('%s:is_keyword:table-selection' % g.crate, '%s/%s:%d' % (g.crate, ik.file, ik.line),
+                         'is_keyword: %d `match` expressions; how the table is selected from the version is not recognised' % len(ms))
+            ms = []
         for m in ms:
-            if not sx.is_call(m['e'], 'current_version'):
+            if scrut_ok is None:
+                scrut_ok = sx.is_call(m['e'], 'current_version')
+            if not scrut_ok:
                 k2.fail('%s:is_keyword:scrutinee' % g.crate, '%s/%s:%d' % (g.crate, ik.file, ik.line),
                         'is_keyword must select the table from current_version() (found %s)' % sx.render(m['e'])[:60])
             for arm in m['arms']:
@@ -315,6 +331,28 @@ def run(ctx):
         locs = [n for n in sx.walk(body) if sx.is_call(n, 'into_locate') and len(n['args']) == 1]
         where_lex = '%s/%s:%d' % (g.crate, lex.file, lex.line)
         if not kw_calls:
+            # the final "reserved word?" step may be a private function the lexer ends with: `finish(s, word)`.  Follow it when
+            # every value exit of the lexer is such a call (or an Err); the helper is then judged like a lexer body.
+            stmts_ = body['stmts']
+            tail_ = stmts_[-1]['e'] if stmts_ and stmts_[-1]['k'] == 'expr' and not stmts_[-1].get('semi') else None
+            h_ = g.fns.get(tail_['f']['p']) if tail_ is not None and sx.is_call(tail_) else None
+            if h_ is not None and h_.kind in ('other', 'parser') and h_.item.get('body') and \
+                    any(sx.is_call(n, 'is_keyword') for n in sx.walk(h_.item['body'])) and \
+                    not any(sx.is_call(n, 'into_locate') for n in sx.walk(body)):
+                # the word handed over must be what the lexer consumed (a local built from its binds), the helper's own test and
+                # conversion must be on that parameter
+                hp_ = [sx.pat_idents(q['pat'])[0] for q in h_.item['sig']['params'] if q.get('k') == 'typed']
+                k4.notes.append('%s: reserved-word step delegated to %s' % (lex.name, h_.name))
+                lex_body_for_paths = h_.item['body']
+                body = lex_body_for_paths
+                kw_calls = [n for n in sx.walk(body) if sx.is_call(n, 'is_keyword') and len(n['args']) == 1]
+                locs = [n for n in sx.walk(body) if sx.is_call(n, 'into_locate') and len(n['args']) == 1]
+        if not kw_calls:
+            calls_out = [n for n in sx.walk(body) if sx.is_call(n) and n['f']['p'] in g.fns and g.fns[n['f']['p']].kind == 'other' and
+                         any(sx.is_call(z, 'is_keyword') for z in sx.walk(g.fns[n['f']['p']].item.get('body') or {}))]
+            if calls_out:
+                k4.undecided('%s:%s:keyword-test-shape' % (g.crate, lex.name), where_lex, '%s: the reserved-word test is reached through %s in a way the rule does not follow' % (lex.name, calls_out[0]['f']['p']))
+                continue
             k4.fail('%s:%s:no-keyword-test' % (g.crate, lex.name), where_lex,
                     '%s (used by %s to build %s) never asks is_keyword: reserved words are accepted as identifiers' % (lex.name, f.name, node['p']))
             continue
